@@ -53,35 +53,35 @@ prop('C17', [v('v_cc14', 'C17'), v('v_nrpn', 'C17'), v('v_poll', 'C17'), k('k_br
 prop('C18', [v('v_msg', 'C18'), v('v_cc14', 'C18'), v('v_nrpn', 'C18'), v('v_poll', 'C18'), k('k_bridge', 'C18'), k('k_short', 'C18', thorough_only=True), k('k_newtype', 'C18', thorough_only=True), k('k_newtype', 'C18', 'none', thorough_only=True)], [B1, B3, CLOCK], VERUS_TB)
 
 # ----------------------------------------------------------------------------- manifest texts
-VNOTE = 'Trusted: Verus/Z3/vstd; the extractor (token round-trip check each run); bridge contracts B1-B3 (assumed in Verus, proved by Kani); clock model for the polling scanner; derived PartialEq structural. Listed in full in the evidence file (trusted_base, assumptions).'
+VNOTE = 'Every public step contract is additionally decided on the real crate by a paired Kani harness (counterexamples, shape-change robustness); a Verus failure that none of the covering Kani harnesses confirms is reported as undecided (exit 2). Trusted: Verus/Z3/vstd; Kani/CBMC; the extractor (token round-trip check each run); bridge contracts B1-B3 (assumed in Verus, proved by Kani); clock model for the polling scanner; derived PartialEq structural. Listed in full in the evidence file (trusted_base, assumptions).'
 DESC = {
- 'C07': {'engine': 'verus', 'ref': '5/C07', 'technique': 'Verus contracts on real encoder + scanner functions; inverse proved by a verified client over the contracts',
+ 'C07': {'engine': 'verus', 'ref': '5/C07', 'technique': 'Verus contracts on real encoder + scanner functions, inverse proved by a verified client over the contracts; paired Kani harnesses on the real crate',
          'text': 'Unbounded proof: constructor/accessor/encoder contracts of ControlChange14BitMessage and the one-step contracts of the real scanner functions are discharged by Verus; a verified client composes encoder and scanner contracts for every message and every invariant-satisfying prior scanner state.', 'note': VNOTE},
- 'C08': {'engine': 'verus', 'ref': '5/C08', 'technique': 'Verus one-step refinement contracts on every scanner function + inductive history theorem',
+ 'C08': {'engine': 'verus', 'ref': '5/C08', 'technique': 'Verus one-step refinement contracts on every scanner function + inductive history theorem; paired Kani one-step harness',
          'text': 'Unbounded proof over all histories: each real function refines a spec step function; Verus proves by induction on a ghost history that the representation relation to "most recent MSB since creation/reset" is preserved and every report equals the statement\'s expected().', 'note': VNOTE},
- 'C09': {'engine': 'verus', 'ref': '5/C09', 'technique': 'Verus contracts on constructors, accessors, to_short_messages and build_* helpers against encpn',
+ 'C09': {'engine': 'verus', 'ref': '5/C09', 'technique': 'Verus contracts on constructors, accessors, to_short_messages and build_* helpers against encpn; paired Kani harnesses on the real trait layer',
          'text': 'Unbounded proof: every constructor, accessor and the encoder (both byte orders) is proved equal to the slot specification written from the statement; slot-count lemma; controller constants are the extracted ones.', 'note': VNOTE},
- 'C10': {'engine': 'verus', 'ref': '5/C10', 'technique': 'Verus verified clients composing encoder and scanner contracts; running forms by induction',
+ 'C10': {'engine': 'verus', 'ref': '5/C10', 'technique': 'Verus verified clients composing encoder and scanner contracts, running forms by induction; paired Kani one-step harness',
          'text': 'Unbounded proof: for every message and every invariant-satisfying prior scanner state the encoder contract composed with the scanner step contracts yields None,...,Some(m); running forms by lemma + induction.', 'note': VNOTE},
- 'C11': {'engine': 'verus', 'ref': '5/C11', 'technique': 'Verus one-step refinement contracts + inductive history theorem (num_msb/num_lsb/registered/v38)',
+ 'C11': {'engine': 'verus', 'ref': '5/C11', 'technique': 'Verus one-step refinement contracts + inductive history theorem (num_msb/num_lsb/registered/v38); paired Kani one-step harness',
          'text': 'Unbounded proof over all histories of feeds and resets: exact functional contracts on all eight per-channel functions; induction over ghost histories shows every report equals the statement\'s expected().', 'note': VNOTE},
- 'C12': {'engine': 'verus', 'ref': '5/C12', 'technique': 'Verus refinement of all 13 polling-scanner functions to an abstract machine + unit lemmas + inductive sentence composition',
+ 'C12': {'engine': 'verus', 'ref': '5/C12', 'technique': 'Verus refinement of all 13 polling-scanner functions to an abstract machine + unit lemmas + inductive sentence composition; paired Kani harnesses against the executable machine',
          'text': 'Unbounded proof: every real function refines the abstract per-channel machine; unit lemma per documented form, composition theorem by induction over sentences, number selection from every state, encode-feed-late-poll corollary, noise erasure.', 'note': VNOTE},
- 'C13': {'engine': 'verus', 'ref': '5/C13', 'technique': 'Verus contract of poll stated directly over the clock reading; timeout preservation on every mutator',
+ 'C13': {'engine': 'verus', 'ref': '5/C13', 'technique': 'Verus contract of poll over the clock reading, arrival-time stamping and timeout preservation on every mutator; paired Kani poll/feed harnesses',
          'text': 'Unbounded proof over every clock reading: poll acts iff a value is pending and not(reading < timeout); not-expired poll is the identity; LSB-only pending dropped silently; timeout never changes.', 'note': VNOTE},
- 'C14': {'engine': 'verus', 'ref': '5/C14', 'technique': 'Verus refinement contracts + history observer with inductive coupling invariant',
+ 'C14': {'engine': 'verus', 'ref': '5/C14', 'technique': 'Verus refinement contracts + history observer with inductive coupling invariant; paired Kani harnesses against the executable machine',
          'text': 'Unbounded proof: coupling invariant between machine state and history functions is inductive; justified/no_duplicate/no_loss lemmas give the safety clauses for all histories; channel stamp by contract.', 'note': VNOTE},
- 'C15': {'engine': 'verus', 'ref': '5/C15', 'technique': 'Verus frame clauses on outer feed/poll of all three scanners + projection theorem by induction',
+ 'C15': {'engine': 'verus', 'ref': '5/C15', 'technique': 'Verus frame clauses on outer feed/poll of all three scanners + projection theorem by induction; Kani 2-safety noninterference harnesses',
          'text': 'Unbounded proof: frame clauses (only the element of the message\'s channel may change; report carries that channel; channel-less messages are the identity) on the real functions; projection theorem over Seq::filter proved for an arbitrary per-channel function.', 'note': VNOTE + ' Per-channel functionality: proved via the functional contracts when those hold, otherwise Rust value semantics.'},
- 'C16': {'engine': 'verus', 'ref': '5/C16', 'technique': 'Verus identity-on-noise postconditions for all three scanners; predicate and constant contracts',
+ 'C16': {'engine': 'verus', 'ref': '5/C16', 'technique': 'Verus identity-on-noise postconditions for all three scanners, predicate and constant contracts; Kani harnesses on derived PartialEq',
          'text': 'Unbounded proof: non-contributing message => state structurally unchanged and nothing reported, for every state; the three predicates proved equal to their ranges; every *_LSB constant of the current source equals MSB+32.', 'note': VNOTE},
- 'C17': {'engine': 'verus', 'ref': '5/C17', 'technique': 'Verus reset postcondition (loop invariant over iter_mut) == new_spec; verified client reset-vs-new',
+ 'C17': {'engine': 'verus', 'ref': '5/C17', 'technique': 'Verus reset postcondition (loop invariant over iter_mut) == new_spec, verified client reset-vs-new; Kani reset/new/default harnesses',
          'text': 'Unbounded proof: after reset every channel equals the fresh state (timeout kept); a verified client shows reset() and new() produce extensionally equal arrays.', 'note': VNOTE},
- 'C18': {'engine': 'verus', 'ref': '5/C18', 'technique': 'Verus panic-freedom obligations (expect/unwrap/assert/index/overflow) under inductive invariants',
+ 'C18': {'engine': 'verus', 'ref': '5/C18', 'technique': 'Verus panic-freedom obligations under inductive invariants; Kani frame harnesses with allocator and fmt::format stubs; documented panics by unreachability',
          'text': 'Unbounded proof of panic freedom for every extracted function under the always-on invariants, which every mutator preserves; allocation frame by Kani (see evidence).', 'note': VNOTE},
 }
 KNOTE = 'Trusted: Kani/CBMC/CaDiCaL and Kani\'s models of core; loop-free code over full-width symbolic inputs is decided completely; bounded parts are listed under bounded_parts_not_counted_as_proved in the evidence and never counted. '
-DESC['C04'] = {'engine': 'kani', 'ref': '5/C04', 'technique': 'Kani harnesses over full-width symbolic inputs for every generated From/TryFrom/new/FromStr instantiation in two feature sets; Verus range postconditions on every encoder/scanner result',
+DESC['C04'] = {'engine': 'kani', 'ref': '5/C04', 'technique': 'Kani function contracts woven into the macro bodies (proof_for_contract per instantiation) + harnesses over full-width symbolic inputs in two feature sets; Verus range postconditions on every encoder/scanner result',
                'text': 'Complete (loop-free, full machine domain up to 128 bits) proof per conversion that results are in range and Ok/panic happens exactly for out-of-range input, for {std} and {no default features}; the range invariant of every value produced by bit helpers, encoders and scanners is a Verus postcondition.',
                'note': KNOTE + 'Absolute FromStr claim: relative to core\'s primitive parser for all strings, real parser only up to the stated length bound.'}
 DESC['C05'] = {'engine': 'kani', 'ref': '5/C05', 'technique': 'Kani harnesses over full-width symbolic inputs: value preservation of all conversions, Ord/Eq/Default/MIN/MAX, Display through core::fmt against an own decimal routine',
